@@ -22,6 +22,11 @@ using namespace doc;
 
 namespace {
 
+// messages must stay valid UTF-8 even when truncated: print every byte >= 0x80 as an escape
+static std::string ascii_only(const std::string &s) { std::string o; for (unsigned char ch : s) { if (ch >= 0x80) { char b[8]; snprintf(b, sizeof b, "\\x%02x", ch); o += b; } else o += (char)ch; } return o; }
+static std::string qe(const std::string &s) { return ascii_only(doc::esc(s)); }
+static std::string qs(const doc::NodeP &n) { return ascii_only(doc::show(n)); }
+
 static const char *TYPE_NAMES[] = {"T8", "U8", "TE10", "UE10", "T16", "U16", "UE14", "?", "E12"};
 static const int TYPES1[] = {VNACAL_T8, VNACAL_U8, VNACAL_TE10, VNACAL_UE10, VNACAL_T16, VNACAL_U16, VNACAL_UE14, VNACAL_E12};
 static const int TYPES2[] = {VNACAL_T8, VNACAL_U8, VNACAL_TE10, VNACAL_UE10, VNACAL_UE14, VNACAL_E12};
@@ -186,7 +191,7 @@ struct H {
                 continue;
             }
             const CalM &m = it->second;
-            PBT_CHECK(c, nm != nullptr && m.name == nm, "C16.name_at_index", "step %d (%s): vnacal_get_name(%d) = %s, model \"%s\"", step, what, ci, nm ? esc(nm).c_str() : "NULL", m.name.c_str());
+            PBT_CHECK(c, nm != nullptr && m.name == nm, "C16.name_at_index", "step %d (%s): vnacal_get_name(%d) = %s, model \"%s\"", step, what, ci, nm ? qe(nm).c_str() : "NULL", m.name.c_str());
             int fi = vnacal_find_calibration(vc, m.name.c_str());
             PBT_CHECK(c, fi == ci, "C16.find_index", "step %d (%s): vnacal_find_calibration(\"%s\") = %d, model %d", step, what, m.name.c_str(), fi, ci);
             int ty = (int)vnacal_get_type(vc, ci), r = vnacal_get_rows(vc, ci), co = vnacal_get_columns(vc, ci), F = vnacal_get_frequencies(vc, ci);
@@ -198,11 +203,11 @@ struct H {
             dcx z = vnacal_get_z0(vc, ci);
             PBT_CHECK(c, same_bits(z, mkc(m.z0)), "C16.getters", "step %d (%s): z0 of calibration %d = %g%+gj, model %g%+gj", step, what, ci, re_(z), im_(z), m.z0.real(), m.z0.imag());
             std::string why; NodeP got = read_tree(vnacal_property_get_subtree(vc, ci, "."), why);
-            PBT_CHECK(c, why.empty() && equal(got, m.props), "C16.property_roots", "step %d (%s): properties of calibration %d: %s  model %s %s", step, what, ci, show(got).c_str(), show(m.props).c_str(), why.c_str());
+            PBT_CHECK(c, why.empty() && equal(got, m.props), "C16.property_roots", "step %d (%s): properties of calibration %d: %s  model %s %s", step, what, ci, qs(got).c_str(), qs(m.props).c_str(), why.c_str());
         }
         {
             std::string why; NodeP got = read_tree(vnacal_property_get_subtree(vc, -1, "."), why);
-            PBT_CHECK(c, why.empty() && equal(got, gprops), "C16.property_roots", "step %d (%s): global properties: %s  model %s %s", step, what, show(got).c_str(), show(gprops).c_str(), why.c_str());
+            PBT_CHECK(c, why.empty() && equal(got, gprops), "C16.property_roots", "step %d (%s): global properties: %s  model %s %s", step, what, qs(got).c_str(), qs(gprops).c_str(), why.c_str());
         }
         errno = 0;
         int nf = vnacal_find_calibration(vc, "no such name");
@@ -450,8 +455,8 @@ struct H {
         }
         return v[c.draw(v.size())];
     }
-    void op_add_std() {
-        int s = pick_slot(true);
+    void op_add_std(int s = -1) {
+        if (s < 0) s = pick_slot(true);
         if (s < 0) return;
         NewM &n = nw[s];
         if (n.stds.size() >= 12) return;
@@ -508,12 +513,12 @@ struct H {
         bool thru = false; for (auto &s : n.stds) if (s.kind == 2) thru = true;
         return thru && has_triple(n, 0) && has_triple(n, 1);
     }
-    void op_solve() {
-        int s = pick_slot(true);
+    void op_solve(int s = -1) {
+        if (s < 0) s = pick_slot(true);
         if (s < 0) return;
         NewM &n = nw[s];
         bool det = determined(n);
-        if (!det && !c.chance(1, 6)) return;     // mostly solve determined systems; sometimes a premature one
+        if (!det && !c.chance(1, 6)) { op_add_std(s); return; }     // mostly solve determined systems; sometimes a premature one
         std::set<int> unk; for (auto &st : n.stds) if (st.unknown) unk.insert(st.h1);
         c.note("solve(slot %d)%s%s", s, det ? "" : "  [not yet determined: outcome not asserted]", unk.empty() ? "" : "  [with unknown parameters]");
         log.clear(); slog.clear();
@@ -535,8 +540,11 @@ struct H {
         for (auto &kv : cals) if (kv.second.name == base) return base + "-" + std::to_string(++name_seq);
         return base;
     }
-    void op_add_calibration() {
-        int s = pick_slot(true);
+    void op_add_calibration(int s = -1) {
+        if (s < 0) {     // prefer a slot that holds a solved calibration
+            std::vector<int> v; for (int i = 0; i < 3; i++) if (nw[i].vn && nw[i].have_cal) v.push_back(i);
+            if (!v.empty() && c.chance(7, 8)) s = v[c.draw(v.size())]; else s = pick_slot(true);
+        }
         if (s < 0) return;
         NewM &n = nw[s];
         bool replace = !cals.empty() && c.chance(1, 3);
@@ -608,31 +616,44 @@ struct H {
         log.clear(); errno = 0;
         if (del) {
             std::string ds = g.print(d);
-            c.note("property_delete(ci %d, %s)", ci, esc(ds).c_str());
+            c.note("property_delete(ci %d, %s)", ci, qe(ds).c_str());
             int rc = vnacal_property_delete(vc, ci, "%s", ds.c_str());
             if (!root) { PBT_CHECK(c, rc == -1, "C16.property_bad_index_accepted", "step %d: vnacal_property_delete with index %d of no calibration returned %d", step, ci, rc); return; }
             NodeP before = clone(*root);
             Res r = op_delete(root, d);
             if (!r.ok) *root = before;
-            PBT_CHECK(c, (rc == 0) == r.ok, "C16.property_result", "step %d: vnacal_property_delete(%d, %s) returned %d, model %s", step, ci, esc(ds).c_str(), rc, r.ok ? "accepts" : "refuses");
+            PBT_CHECK(c, (rc == 0) == r.ok, "C16.property_result", "step %d: vnacal_property_delete(%d, %s) returned %d, model %s", step, ci, qe(ds).c_str(), rc, r.ok ? "accepts" : "refuses");
         } else {
             bool isnull = c.chance(1, 6);
             std::string val = isnull ? "" : g.gen_value();
             std::string ds = g.print(d) + (isnull ? "#" : "=" + val);
-            c.note("property_set(ci %d, %s)", ci, esc(ds).c_str());
+            c.note("property_set(ci %d, %s)", ci, qe(ds).c_str());
             int rc = vnacal_property_set(vc, ci, "%s", ds.c_str());
             if (!root) { PBT_CHECK(c, rc == -1, "C16.property_bad_index_accepted", "step %d: vnacal_property_set with index %d of no calibration returned %d", step, ci, rc); return; }
             NodeP before = clone(*root);
             Res r = op_set(root, d, isnull, val);
             if (!r.ok) *root = before;
-            PBT_CHECK(c, (rc == 0) == r.ok, "C16.property_result", "step %d: vnacal_property_set(%d, %s) returned %d, model %s", step, ci, esc(ds).c_str(), rc, r.ok ? "accepts" : "refuses");
+            PBT_CHECK(c, (rc == 0) == r.ok, "C16.property_result", "step %d: vnacal_property_set(%d, %s) returned %d, model %s", step, ci, qe(ds).c_str(), rc, r.ok ? "accepts" : "refuses");
             if (r.ok && !isnull && d.tail == Desc::NONE && !d.has_insert()) {
                 std::string qs = g.print(d);
                 const char *got = vnacal_property_get(vc, ci, "%s", qs.c_str());
-                PBT_CHECK(c, got && val == got, "C16.property_get", "step %d: vnacal_property_get(%d, %s) = %s after setting %s", step, ci, esc(qs).c_str(), got ? esc(got).c_str() : "NULL", esc(val).c_str());
+                PBT_CHECK(c, got && val == got, "C16.property_get", "step %d: vnacal_property_get(%d, %s) = %s after setting %s", step, ci, qe(qs).c_str(), got ? qe(got).c_str() : "NULL", qe(val).c_str());
             }
         }
         c.label(ci == -1 ? "global-property-op" : "calibration-property-op");
+    }
+
+    // the usual life of a calibration in one go: allocate (or take a slot), add standards until the
+    // set determines the error terms, solve, store
+    void op_whole_calibration() {
+        int s = pick_slot(true);
+        if (s < 0 || c.chance(1, 3)) { int before = pick_slot(false); if (before >= 0) { op_new_alloc(); for (int i = 0; i < 3; i++) if (nw[i].vn && nw[i].stds.empty()) s = i; } }
+        if (s < 0) return;
+        for (int i = 0; i < 10 && !determined(nw[s]); i++) op_add_std(s);
+        if (!determined(nw[s])) return;
+        if (c.chance(1, 5)) { op_delete_parameter(); check_params("delete inside"); }
+        op_solve(s);
+        op_add_calibration(s);
     }
 
     // -------------------------------------------------------------------- run
@@ -643,10 +664,10 @@ struct H {
         sh = vnacal_create(errlog_fn, &slog);
         PBT_CHECK(c, vc && sh, "C16.create_failed", "vnacal_create failed");
         check_tables("create"); check_params("create");
-        size_t mean = (size_t)(2 + c.size / 2);
+        size_t mean = (size_t)(4 + c.size / 2);
         for (size_t nops = 0; (c.mark(), c.more(nops, mean, 100)); nops++) {
             step++;
-            int op = c.weighted({5, 3, 3, 2, 5, 5, 14, 6, 6, 4, 6, 2, 2});
+            int op = c.weighted({5, 3, 3, 2, 5, 4, 10, 6, 6, 5, 8, 2, 2, 8});
             bool cal_op = false, par_op = false;
             switch (op) {
             case 0: op_make_scalar(); par_op = true; break;
@@ -661,7 +682,8 @@ struct H {
             case 9: op_delete_calibration(); cal_op = true; break;
             case 10: op_property(); break;
             case 11: op_new_free(); par_op = true; break;
-            default: op_probe_value(); break;
+            case 12: op_probe_value(); break;
+            default: op_whole_calibration(); cal_op = par_op = true; break;
             }
             check_tables("after op");
             if (par_op) check_params("after op");
